@@ -16,6 +16,9 @@ A contract is a class with
 The same methods run symbolically (z3 terms, python3-vt) and concretely (values
 observed from the real function under /venv/bin/python).
 """
+import os
+import sys
+
 from . import sx
 from .sx import z3, is_sym
 from . import values as V
@@ -380,6 +383,8 @@ class ConcCtx:
 
     def cls(self, qualname):
         import importlib
+        if qualname.startswith('tools.'):
+            return resolve_real(qualname)
         modname, _, cname = qualname.rpartition('.')
         return getattr(importlib.import_module(modname), cname)
 
@@ -413,6 +418,24 @@ def resolve_real(target):
     """import the real function object for `target` (concrete mode)"""
     import importlib
     parts = target.split('.')
+    if parts[0] == 'tools':
+        # the command line tools are scripts without a .py suffix next to the package
+        import importlib.machinery
+        import importlib.util
+        import pycdlib
+        path = os.path.join(os.path.dirname(os.path.dirname(pycdlib.__file__)), 'tools', parts[1].replace('_', '-'))
+        name = 'pyvc_tool_' + parts[1]
+        mod = sys.modules.get(name)
+        if mod is None:
+            loader = importlib.machinery.SourceFileLoader(name, path)
+            spec = importlib.util.spec_from_loader(name, loader)
+            mod = importlib.util.module_from_spec(spec)
+            sys.modules[name] = mod
+            loader.exec_module(mod)
+        cur = mod
+        for p in parts[2:]:
+            cur = getattr(cur, p)
+        return cur
     for i in range(len(parts) - 1, 0, -1):
         try:
             mod = importlib.import_module('.'.join(parts[:i]))
